@@ -120,13 +120,19 @@ Qed.
 
 (* reset: if the first loss after the reset does not count as a failure against +inf (true for
    every loss >= 0, see rtb_first_not_fail_R), the behaviour equals a fresh controller's *)
-Theorem rtb_reset_equiv_fresh c (s : rtb_state (F:=F)) l more :
+Theorem rtb_reset_old_equiv_fresh c (s : rtb_state (F:=F)) l more :
   all_rel None l (rtb_dec c) = false ->
-  rtb_run_from c (rtb_reset s) (l :: more) = rtb_run_from c rtb_init (l :: more).
+  rtb_run_from c (rtb_reset_old s) (l :: more) = rtb_run_from c rtb_init (l :: more).
 Proof.
   intros H. unfold rtb_run_from. cbn [fold_left]. f_equal.
-  unfold rtb_step, rtb_reset, rtb_init. cbn [rtb_steps rtb_pc rtb_last rtb_cont]. now rewrite H.
+  unfold rtb_step, rtb_reset_old, rtb_init. cbn [rtb_steps rtb_pc rtb_last rtb_cont]. now rewrite H.
 Qed.
+(* reset as coded now restores the initial state, whatever the history and whatever follows *)
+Theorem rtb_reset_is_init (s : rtb_state (F:=F)) : rtb_reset s = rtb_init.
+Proof. reflexivity. Qed.
+Theorem rtb_reset_equiv_fresh c (s : rtb_state (F:=F)) ls :
+  rtb_run_from c (rtb_reset s) ls = rtb_run_from c rtb_init ls.
+Proof. reflexivity. Qed.
 Lemma rtb_reset_observable (s : rtb_state (F:=F)) : rtb_cont (rtb_reset s) = true /\ rtb_steps (rtb_reset s) = 0%Z /\ rtb_last (rtb_reset s) = None.
 Proof. repeat split. Qed.
 
@@ -160,7 +166,7 @@ Proof.
 Qed.
 (* ICP.forward / MPC.forward: reset, then loop *)
 Theorem rtb_driver_bound c s ls : (Z.of_nat (fst (drive_rtb c (rtb_reset s) ls)) <= Z.max 1 (rtb_max c))%Z.
-Proof. pose proof (drive_rtb_bound c ls (rtb_reset s) eq_refl) as H. cbn [rtb_steps rtb_reset] in H. lia. Qed.
+Proof. pose proof (drive_rtb_bound c ls (rtb_reset s) eq_refl) as H. cbn [rtb_steps rtb_reset rtb_init] in H. lia. Qed.
 (* MPC: the constructor lowers the budget by one, so with steps >= 1 the loop makes <= steps steps *)
 Theorem mpc_driver_bound c s ls : (1 <= rtb_max c)%Z ->
   (Z.of_nat (fst (drive_rtb (mpc_cfg c) (rtb_reset s) ls)) <= rtb_max c)%Z.
